@@ -22,6 +22,14 @@ environment of the same configuration renders for the spec's expected
 (version, configuration); after every step the directory is compared with the
 spec's entries (existence + length class).  Then every byte offset of a real
 entry is truncated / used as crash point along the corresponding spec path.
+
+spec/BCCacheSource.tla makes the source texts behind the versions explicit: TLC
+enumerates every pair of texts that differ by one inserted / deleted / replaced
+character (alphabet: ordinary characters, line terminators, the other
+str.splitlines separators, blanks, case variants, non-ASCII) and checks that an
+exact checksum separates them (refuted for a line-normalising one).  Every pair
+is bound to versions 1, 2 of the load / modify / clear graph of BCCache.tla and
+walked on a real environment + real cache.
 """
 from __future__ import annotations
 
@@ -101,6 +109,7 @@ SPECIFICATION Spec
 ALPHABET = [("a", "a"), ("A", "A"), ("X", "{{ x }}"), ("SP", " "), ("TAB", "\t"), ("LF", "\n"), ("CR", "\r"),
             ("VT", "\x0b"), ("FF", "\x0c"), ("FS", "\x1c"), ("NEL", "\x85"), ("NBSP", "\xa0"), ("LS", "\u2028"),
             ("PS", "\u2029"), ("E", "\xe9")]
+ALPHABET_3 = [c for c in ALPHABET if c[0] in ("a", "X", "SP", "LF", "CR", "FF", "LS", "E")]   # for 3-character texts
 ALPHABET_MORE = [("GS", "\x1d"), ("RS", "\x1e"), ("ZWSP", "\u200b"), ("IDSP", "\u3000")]
 LINE_ENDS = ["LF", "CR", "VT", "FF", "FS", "GS", "RS", "NEL", "LS", "PS"]
 CHAR = dict(ALPHABET + ALPHABET_MORE)
@@ -699,11 +708,12 @@ def apply_edge(real, e, rec, hint=None):
                 cur = e["s"]["src"][n]
                 stale = [v for v in (1, 2, 3) if v != cur and (not real.texts or str(v) in real.texts)
                          and obs == real.ref(n, v, own, env)]
+                note = ""
                 if stale:
                     fp["defect"] = "stale-source-served"
-                    during += f" is what version {stale[0]} of the source ({real.text(n, stale[0])!r}) renders: " \
-                              f"the entry stored for it was taken for the current source {real.text(n, cur)!r};"
-                what = f"{where}: load by environment {env} ({own}){during} gave {obs}; the property allows only {want}"
+                    note = f", which is what version {stale[0]} of the source ({real.text(n, stale[0])!r}) renders -- " \
+                           f"the entry stored for it passed for the current source {real.text(n, cur)!r}"
+                what = f"{where}: load by environment {env} ({own}){during} gave {obs}{note}; the property allows only {want}"
                 rec.unexpected += 1
             rec.violation(fp["defect"], what, fp, e)
         if not as_model:
@@ -811,7 +821,7 @@ def framed(frame, body):
     if frame == "bare":
         return body
     if frame == "after-long-text":      # the edited characters are the last ones of a long source
-        return "long " * 1200 + "{{ x }}|" + body
+        return "long " * 400 + "{{ x }}|" + body
     raise core.MachineryError(f"unknown frame {frame}")
 
 
@@ -1096,8 +1106,10 @@ def load_own_findings(ck):
 
 
 def run(ck):
+    import time
     quick = ck.tier == "quick"
     load_own_findings(ck)
+    t0 = time.time()
     with ThreadPoolExecutor(6) as ex:
         # -- 1. model checking -------------------------------------------------------------------
         mc = {
@@ -1116,7 +1128,7 @@ def run(ck):
         src = {"source texts, one edit": ex.submit(src_tlc, "src", alpha=ALPHABET + ([] if quick else ALPHABET_MORE),
                                                    maxlen=2, emit=True)}
         if not quick:
-            src["source texts, one edit, 3 characters"] = ex.submit(src_tlc, "src3", alpha=ALPHABET, maxlen=3, emit=True)
+            src["source texts, one edit, 3 characters"] = ex.submit(src_tlc, "src3", alpha=ALPHABET_3, maxlen=3, emit=True)
         if not quick:
             mc["write protocol 3 procs"] = ex.submit(write_tlc, "w3", procs=3)
             mc["intended fs 3 versions"] = ex.submit(bcc_tlc, "int_fs3", keycfg=True, nversions=3)
@@ -1139,7 +1151,7 @@ def run(ck):
                                 stages=("tempPartial",), graph=True),
             "mem1": ex.submit(bcc_tlc, "g_mem1", store="mem", ignore=True, graph=True),
             "mem0": ex.submit(bcc_tlc, "g_mem0", store="mem", ignore=False, graph=True),
-            "edit": ex.submit(bcc_tlc, "g_edit", cfgof=("c1", "c1"), trunc=(), foreign=False, stages=(),
+            "edit": ex.submit(bcc_tlc, "g_edit", cfgof=("c1",), trunc=(), foreign=False, stages=(),
                               clear_stages=(), graph=True),
         }
         for label, f in mc.items():
@@ -1162,6 +1174,7 @@ def run(ck):
             r = f.result()
             ck.add_tlc(r, f"BCCacheSource {label}")
             pairs[label] = edit_pairs_of(r)
+    t1 = time.time()
     # -- 3. replay -----------------------------------------------------------------------------------
     same_b = [("plain", "plain")] + ([] if quick else [("async", "async"), ("sandboxed", "sandboxed")])
     diff_b = [("plain", "autoescape"), ("plain", "sandboxed"), ("plain", "async"), ("plain", "trim")]
@@ -1186,11 +1199,13 @@ def run(ck):
     tasks.sort(key=lambda t: -(len(t[1]) + (40000 if t[3] else 0)))
     # versions 1, 2 bound to every edit pair of BCCacheSource.tla (both environments the same configuration)
     etasks = []
-    variants = [("plain", "bare"), ("ktn", "bare"), ("ktn", "after-long-text")]
+    # (keep_trailing_newline shows every character of the source in the output; the default configuration
+    # drops one final newline, so an edit of it cannot be observed there)
+    variants = [("ktn", "bare"), ("plain", "after-long-text")]
     if not quick:
-        variants += [("trim", "bare"), ("sandboxed", "after-long-text")]
+        variants += [("plain", "bare"), ("ktn", "after-long-text"), ("trim", "bare"), ("sandboxed", "after-long-text")]
     for label, plist in pairs.items():
-        vs = variants if "3 characters" not in label else variants[:2]
+        vs = variants if "3 characters" not in label else variants[:1]
         nchunks = max(1, min(16, len(plist) // 150))
         for cfg, frame in vs:
             for i in range(nchunks):
@@ -1205,8 +1220,11 @@ def run(ck):
         results = [ex.submit(replay_component, t) for t in tasks]
         eresults = [ex.submit(replay_edit_pairs, t) for t in etasks]
         results = [f.result() for f in results]
+        t2 = time.time()
         ntraces = validate_write_traces(ck, wt.result())
         eresults = [f.result() for f in eresults]
+        ck.extra["phase_wall_s"] = {"tlc": round(t1 - t0, 1), "graph_replay": round(t2 - t1, 1),
+                                    "traces_and_edit_pairs_after_that": round(time.time() - t2, 1)}
         ck.extra["edit_pair_walks"] = sum(st["pairs"] for st in eresults)
         for t, st in list(zip(tasks, results)) + list(zip(etasks, eresults)):
             edges += st["edges"]
